@@ -9,7 +9,7 @@ import traceback
 
 import z3
 
-from . import solve
+from . import canon, solve
 from .interp import Interp
 from .values import (Raised, SBool, SDecStr, SFn, SInt, SObj, SStr, Unsupported, concretize, is_sym, lift_bool,
                      lift_int, lift_str, payload)
@@ -229,7 +229,9 @@ def _run(task, I, res, seed, tier):
 
     def solve_clause(name, hyps, goal, kind="vc"):
         """discharge: assumptions ∧ hyps ⇒ goal"""
-        st, model, backend, secs = solve.check(list(I.assumptions) + list(hyps) + [z3.Not(as_formula(goal))])
+        fs = list(I.assumptions) + list(hyps) + [z3.Not(as_formula(goal))]
+        fs = canon.canonicalise(fs, getattr(I, "domains", {}))
+        st, model, backend, secs = solve.check(fs)
         if st == "unsat":
             obls.append(obligation(name, "discharged", backend, secs, kind=kind))
             return True
